@@ -11,10 +11,10 @@ import ast
 from ..effects import FS_MUTATING, same_path
 from ..model import src
 from ..report import Report, key_of
-from ..terms import pretty
+from ..terms import assume, has_opaque, pretty
 from ..types import Ctx
 from .c05 import classify, persistent_data_classes
-from .common import TRUSTED_BASE, cfg_nodes_for, effects_of, expanded_facts, inl, where
+from .common import TRUSTED_BASE, bound_args, cfg_nodes_for, effects_of, expanded_facts, inl, loop_runs_to_end, loop_unconditional, subst_single_assign, where
 
 
 def load_guard_facts(A):
@@ -31,30 +31,49 @@ def load_guard_facts(A):
 
 
 def graph_orientation(A):
-    """('input->task' | 'task->input' | None, add_edge call) from Chain._build_graph."""
+    """[('input->task' | 'task->input' | None, call)] for every construct of Chain._build_graph that adds edges:
+    add_edge(a, b) inside loops, or add_edges_from(<comprehension of (a, b) pairs>)."""
     f = A.func('Chain._build_graph')
+    binders = {}   # name -> source text of the iterable that binds it (for statements and comprehension generators)
+    for st in inl(A, f):
+        if isinstance(st, (ast.For, ast.comprehension)):
+            for x in ast.walk(st.target):
+                if isinstance(x, ast.Name):
+                    binders.setdefault(x.id, []).append(src(st.iter))
+
+    def kind(a):
+        if not isinstance(a, ast.Name):
+            return None
+        its = binders.get(a.id, [])
+        if len(its) != 1:
+            return None
+        if 'input_tasks' in its[0]:
+            return 'input'
+        if 'self.tasks' in its[0]:
+            return 'task'
+        return None
+
     res = []
-    for n in A.typer.own_nodes(f):
+    for n in inl(A, f):
+        pair = None
         if isinstance(n, ast.Call) and isinstance(n.func, ast.Attribute) and n.func.attr == 'add_edge' and len(n.args) >= 2:
-            # classify each argument: loop variable over tasks (the dependant) or over its input_tasks (the input)
-            kinds = []
-            for a in n.args[:2]:
-                k = None
-                if isinstance(a, ast.Name):
-                    for st in A.typer.own_nodes(f):
-                        if isinstance(st, ast.For) and a.id in {x.id for x in ast.walk(st.target) if isinstance(x, ast.Name)}:
-                            it = src(st.iter)
-                            if 'input_tasks' in it:
-                                k = 'input'
-                            elif 'self.tasks' in it:
-                                k = 'task'
-                kinds.append(k)
-            if kinds == ['input', 'task']:
-                res.append(('input->task', n))
-            elif kinds == ['task', 'input']:
-                res.append(('task->input', n))
+            pair = n.args[:2]
+        elif isinstance(n, ast.Call) and isinstance(n.func, ast.Attribute) and n.func.attr == 'add_edges_from' and n.args:
+            e = subst_single_assign(A, f, n.args[0])
+            if isinstance(e, (ast.GeneratorExp, ast.ListComp, ast.SetComp)) and isinstance(e.elt, ast.Tuple) and len(e.elt.elts) >= 2:
+                pair = e.elt.elts[:2]
             else:
                 res.append((None, n))
+                continue
+        if pair is None:
+            continue
+        kinds = [kind(a) for a in pair]
+        if kinds == ['input', 'task']:
+            res.append(('input->task', n))
+        elif kinds == ['task', 'input']:
+            res.append(('task->input', n))
+        else:
+            res.append((None, n))
     return f, res
 
 
@@ -134,57 +153,79 @@ def run(A, R: Report, thorough: bool):
     cf = A.func('Chain.force')
     R.rule('R07.4', 'Chain.force unions dependent_tasks(.., include_self=True) over all given tasks, forces every member with the delete flag, recomputes every member', floor=3)
     tparam = cf.pos_params[1]
-    loops = [n for n in A.typer.own_nodes(cf) if isinstance(n, ast.For)]
-    union_loop = None
-    setvar = None
-    for lp in loops:
-        if src(lp.iter) != tparam:
-            continue
-        for st in lp.body:
-            call = None
-            if isinstance(st, ast.AugAssign) and isinstance(st.op, ast.BitOr) and isinstance(st.value, ast.Call):
-                setvar, call = src(st.target), st.value
-            elif isinstance(st, ast.Expr) and isinstance(st.value, ast.Call) and isinstance(st.value.func, ast.Attribute) and st.value.func.attr == 'update' and st.value.args \
-                    and isinstance(st.value.args[0], ast.Call):
-                setvar, call = src(st.value.func.value), st.value.args[0]
-            if call is not None and src(call.func).endswith('dependent_tasks'):
-                inc = [kw for kw in call.keywords if kw.arg == 'include_self']
-                inc_ok = (inc and isinstance(inc[0].value, ast.Constant) and inc[0].value.value is True) or (len(call.args) >= 2 and isinstance(call.args[1], ast.Constant) and call.args[1].value is True)
-                arg_ok = call.args and src(call.args[0]) == src(lp.target)
-                union_loop = (lp, inc_ok and arg_ok and len(lp.body) == 1)
-    if union_loop is None:
-        R.undecided('R07.4', 'Chain.force: closure loop', 'union-over-tasks idiom not recognised', where=where(cf))
-    else:
-        R.check(union_loop[1], 'R07.4', 'Chain.force: closure loop', key_of('closure-loop', src(union_loop[0])[:80]), 'union of dependent_tasks(task, include_self=True) over all tasks',
-                'the forced set is not the union of dependent_tasks(task, include_self=True) over every given task', where=where(cf, union_loop[0]))
+    chain_ci0 = A.cls('Chain')
+    cfgf = A.cfg(cf)
+    loops = [n for n in inl(A, cf) if isinstance(n, ast.For)]
+    stop_old = A.sym.stop_at
+    A.sym.stop_at = {fi.qualname for fi in A.prog.functions.values() if fi.name in ('dependent_tasks', 'force', 'value', 'data')}
+    try:
+        at = A.sym.terms_at(cf, ('inst', chain_ci0), [lp.iter for lp in loops])
+    finally:
+        A.sym.stop_at = stop_old
+    tp = ('p', tparam)
+
+    def core(t):
+        """strip order-only wrappers: list / sorted / reversed / [::-1]"""
+        while True:
+            if t[0] == 'call' and t[1] in ('list', 'reversed', 'tuple') and len(t[2]) == 1:
+                t = t[2][0]
+            elif t[0] == 'sorted':
+                t = t[1]
+            elif t[0] == 'call' and t[1] == 'slice3' and t[2][1:] == (('lit', None), ('lit', None), ('lit', -1)):
+                t = t[2][0]
+            else:
+                return t
+
+    def is_closure(t):
+        """flatten(dependent_tasks(x, include_self=True) for x in <all given tasks>)"""
+        if not (t[0] == 'call' and t[1] == 'flatten' and t[2][0][0] == 'map'):
+            return False
+        m = t[2][0]
+        if len(m[1]) != 1 or m[4] is not None:
+            return False
+        body, seq = m[2], m[3]
+        dep = body[0] == 'ref' and body[1].endswith('dependent_tasks') and body[3][:1] == (m[1][0],) and \
+            (('kw', 'include_self', ('lit', True)) in body[3] or body[3][1:2] == (('lit', True),))
+        # the sequence is the argument itself, or [argument] for a single task / name
+        many = assume(seq, lambda c: False if (c[0] == 'isinst' and c[1] == tp) or (c[0] == 'cmp' and c[1] == 'Is' and c[2] == ('call', 'type', (tp,))) else None)
+        single = assume(seq, lambda c: True if (c[0] == 'isinst' and c[1] == tp) or (c[0] == 'cmp' and c[1] == 'Is' and c[2] == ('call', 'type', (tp,))) else None)
+        return dep and many == tp and single == ('list', (tp,))
+
+    closure_loops = [lp for lp in loops if any(is_closure(core(t)) for t in at.get(id(lp.iter), []))]
+    all_closure = {lp: all(is_closure(core(t)) for t in at.get(id(lp.iter), [])) for lp in closure_loops}
     dflag = [p for p in cf.params if 'delete' in p]
-    force_loops = []
-    value_loops = []
+    task_force = task.lookup('force')
+    force_loops, value_loops = [], []
     for lp in loops:
-        it = src(lp.iter)
-        if setvar and setvar in it and lp is not (union_loop[0] if union_loop else None):
-            whole = it in (setvar, f'list({setvar})', f'list({setvar})[::-1]', f'sorted({setvar})', f'reversed(list({setvar}))') or it.startswith(f'sorted({setvar}')
-            calls = [n for n in ast.walk(lp) if isinstance(n, ast.Call) and isinstance(n.func, ast.Attribute) and n.func.attr == 'force' and src(n.func.value) == src(lp.target)]
-            vals = [n for n in ast.walk(lp) if isinstance(n, ast.Attribute) and n.attr in ('value', 'data') and src(n.value) == src(lp.target)]
-            if calls:
-                flag_ok = bool(dflag) and all(any(kw.arg == dflag[0] and src(kw.value) == dflag[0] for kw in c.keywords) or (c.args and src(c.args[0]) == dflag[0]) for c in calls)
-                uncond = all(isinstance(getattr(c, '_parent', None), ast.Expr) and c._parent in lp.body for c in calls)
-                force_loops.append((lp, whole and flag_ok and uncond))
-            if vals:
-                value_loops.append((lp, whole))
+        if not isinstance(lp.target, ast.Name):
+            continue
+        calls = [n for n in ast.walk(lp) if isinstance(n, ast.Call) and isinstance(n.func, ast.Attribute) and n.func.attr == 'force' and src(n.func.value) == lp.target.id]
+        vals = [n for n in ast.walk(lp) if isinstance(n, ast.Attribute) and n.attr in ('value', 'data') and src(n.value) == lp.target.id and isinstance(n.ctx, ast.Load)]
+        whole = lp in closure_loops and all_closure[lp] and loop_runs_to_end(lp)
+        if calls:
+            flag_ok = bool(dflag) and all(src((bound_args(c, task_force) or {}).get(dflag[0], ast.Constant(None))) == dflag[0] for c in calls)
+            uncond = all(loop_unconditional(cfgf, lp, c) for c in calls)
+            force_loops.append((lp, whole and flag_ok and uncond))
+        if vals:
+            value_loops.append((lp, whole and all(loop_unconditional(cfgf, lp, v) for v in vals)))
+    if not closure_loops and any(has_opaque(t) for lp in loops for t in at.get(id(lp.iter), [])):
+        R.undecided('R07.4', 'Chain.force: closure loop', 'the forced set could not be evaluated symbolically', where=where(cf))
+    else:
+        R.check(bool(closure_loops), 'R07.4', 'Chain.force: closure loop', key_of('closure-loop', bool(closure_loops)), 'union of dependent_tasks(task, include_self=True) over all tasks',
+                'the forced set is not the union of dependent_tasks(task, include_self=True) over every given task', witness=[pretty(t)[:200] for lp in loops for t in at.get(id(lp.iter), [])][:3], where=where(cf))
     if not force_loops:
         R.violation('R07.4', 'Chain.force: force loop', key_of('no-force-loop'), 'no loop calls task.force(...) on the members of the forced set', where=where(cf))
     for lp, ok in force_loops:
-        R.check(ok, 'R07.4', 'Chain.force: force loop', key_of('force-loop', src(lp)[:100]), 'every member forced with the delete flag',
+        R.check(ok, 'R07.4', 'Chain.force: force loop', key_of('force-loop', ok), 'every member forced with the delete flag',
                 'not every member of the closure is forced, or delete_data is not forwarded', where=where(cf, lp))
     if not value_loops:
         R.violation('R07.4', 'Chain.force: recompute loop', key_of('no-recompute-loop'), 'recompute=True does not request the value of the forced tasks', where=where(cf))
     for lp, ok in value_loops:
-        R.check(ok, 'R07.4', 'Chain.force: recompute loop', key_of('recompute-loop', src(lp.iter)), 'every member recomputed', 'recompute does not cover every member of the closure', where=where(cf, lp))
+        R.check(ok, 'R07.4', 'Chain.force: recompute loop', key_of('recompute-loop', ok), 'every member recomputed', 'recompute does not cover every member of the closure', where=where(cf, lp))
     mc = A.func('MultiChain.force')
-    floops = [n for n in A.typer.own_nodes(mc) if isinstance(n, ast.For) and 'self.chains' in src(n.iter)]
-    ok = bool(floops) and any(isinstance(c, ast.Call) and isinstance(c.func, ast.Attribute) and c.func.attr == 'force' and any(kw.arg is None for kw in c.keywords) for lp in floops for c in ast.walk(lp))
-    R.check(ok, 'R07.4', 'MultiChain.force', key_of('fanout'), 'fan-out over all chains with the flags', 'MultiChain.force does not reach every chain with the flags', where=where(mc))
+    from .c13 import multichain_force_fanout
+    ok, why = multichain_force_fanout(A)
+    R.check(ok, 'R07.4', 'MultiChain.force', key_of('fanout', why), 'fan-out over all chains with the flags', f'MultiChain.force does not reach every chain with the flags ({why})', where=where(mc))
 
     # ---- R07.4b the closure does not depend on the state of the tasks
     R.rule('R07.4b', 'which tasks Chain.force marks depends on the graph only, never on task state (forced flag, stored data)', floor=1)
